@@ -84,7 +84,10 @@ PLANS = {
         theorems=['Esc.C02.toHtml_any_schedule', 'Esc.C02.toHtml_prefix', 'Esc.C02.unescape_escape',
                   'Esc.C02.escape_no_raw', 'Esc.C02.entity_table_matches_source', 'Esc.C02.toHtml_decodes'],
         needs_tables=['entities'],
-        runs=[dict(suite='html', n=dict(quick=20000, thorough=600000), projection='identity', tags=['C02'])],
+        runs=[dict(suite='html', n=dict(quick=20000, thorough=600000), projection='identity', tags=['C02']),
+              # the same through generated code: every `@expression` of compiled templates (variables, literals incl.
+              # escapes that denote a special character, values displayed in pieces) against the specification rendering
+              dict(suite='e2e', n=dict(quick=400, thorough=6000), projection='identity', tags=['C02'])],
         correspondence='bytes accepted by the sink and Ok/Err result of ToHtml::to_html (public API) vs Esc.toHtmlDisplay, for the same (pieces, schedule)',
         rule='exhaustive: all strings over {<,>,&,",\',a,é,space} up to length 3 (quick) / 4 (thorough) x all compositions into pieces x all schedules over {accept 1, accept 2, accept all, Interrupted} up to length 3 / 4 (all schedules for the finest and coarsest chunkings, every 7th otherwise); random: long strings, random chunking, schedules with Ok(0) and permanent failure. non-trivial = text contains a special byte; distinct = distinct (mode, text)',
         assumptions=HTML_ASSUME,
@@ -128,7 +131,9 @@ PLANS = {
         runs=[dict(suite='parse', mix='examples,text,structured', n=dict(quick=4000, thorough=80000), projection='body',
                    tags=['C01'], literal_oracle=True),
               dict(suite='parse', srcgen=dict(quick=600, thorough=6000), mix='srcgen', n=1, projection='body', tags=['C01'], literal_oracle=True),
-              dict(suite='e2e', n=dict(quick=300, thorough=6000), projection='identity', tags=['C01'])],
+              dict(suite='e2e', n=dict(quick=300, thorough=6000), projection='identity', tags=['C01']),
+              # the generated function is that of the template as it is now, whatever OUT_DIR held before
+              dict(suite='script', mix='history', n=dict(quick=50, thorough=500), projection='script+files', tags=['C01'])],
         correspondence='syntax tree of the parse and the body of the generated code vs Ructe.template / Ructe.writeRust; every printed text literal is decoded by the Lean model of rustc\'s literal lexer and compared with the text node',
         rule='every ASCII code point except @{} alone / at the start / middle / end of a run, at 7 nesting positions; random text over quotes, backslashes, CR/LF, NUL, controls, multi-byte scalars, escape look-alikes, the three escapes, comments; structured templates with their documented tree; non-trivial = distinct accepted syntax trees',
         assumptions=['rustc lexes literals as the Rust Reference says (modelled by decodeStrLit / decodeByteStrLit; rustc itself is the judge in the e2e runs)'],
@@ -155,7 +160,9 @@ PLANS = {
         extra_modules=['RucteProps.C13Args', 'RucteProps.C13Header'],
         theorems=['Ructe.C13.signature_shape', 'Ructe.C13.content_exact', 'Ructe.C13.content_suffix_only', 'Ructe.C13.printParam_other', 'Ructe.C13.pinned_counterexamples','Ructe.C13.formalArgument_sound','Ructe.C13.formalArgument_has_colon','Ructe.C13.preamble_item_verbatim', 'Ructe.C13Header.typeExpression_complete', 'Ructe.C13Header.formalArgument_complete', 'Ructe.C13Header.template_complete', 'Ructe.C13Header.header_layout_irrelevant', 'Ructe.C13Header.args_verbatim', 'Ructe.C13Header.use_verbatim', 'Ructe.C13Header.typeArgs_verbatim', 'Ructe.C13Header.signature_of_source'],
         runs=[dict(suite='parse', mix='decl,examples,structured', n=dict(quick=4000, thorough=60000), projection='header', tags=['C13']),
-              dict(suite='parse', srcgen=dict(quick=800, thorough=8000), mix='srcgen', n=1, projection='header', tags=['C13'])],
+              dict(suite='parse', srcgen=dict(quick=800, thorough=8000), mix='srcgen', n=1, projection='header', tags=['C13']),
+              # the signature in OUT_DIR is the one of the template as it is now (histories: renamed / restored templates)
+              dict(suite='script', mix='history', n=dict(quick=50, thorough=500), projection='script+files', tags=['C13'])],
         correspondence='the printed signature (use lines, lifetime list, parameter lines) of every accepted template vs Ructe.fnHeader',
         rule='0..8 parameters over 16 type shapes incl. Content / ContentType / Contents / MyContent / &Content / Vec<Content>, 7 colon layouts, parameter names resembling internals, 0..3 use lines incl. renames/globs/nested braces; non-trivial = distinct accepted syntax trees',
         assumptions=['that calls with values of the declared types type-check is rustc\'s judgement (e2e)'],
@@ -204,7 +211,9 @@ PLANS = {
         extra_modules=['RucteProps.C10Tree', 'RucteProps.C18Order'],
         needs_tables=['suffixes'],
         theorems=['Ructe.C10.others_silent', 'Ructe.C10.valid_template_declared', 'Ructe.C10.broken_template_reported', 'Ructe.C10.subdir_declared', 'Ructe.C10.handleEntries_append', 'Ructe.C10.suffix_table', 'Ructe.C10.tree_mirror_file', 'Ructe.C10.subdir_mod_declared', 'Ructe.C10.template_fn_declared', 'Ructe.C10.decl_only_with_file', 'Ructe.C18.broken_isolated'],
-        runs=[dict(suite='script', mix='tree', n=dict(quick=200, thorough=1500), projection='script+files+stdout', tags=['C10'])],
+        runs=[dict(suite='script', mix='tree', n=dict(quick=200, thorough=1500), projection='script+files+stdout', tags=['C10']),
+              # the same promises when OUT_DIR is not empty: earlier builds, restored / renamed templates, residue
+              dict(suite='script', mix='history', n=dict(quick=50, thorough=500), projection='script+files', tags=['C10'])],
         correspondence='the whole OUT_DIR (paths and bytes) and stdout of compile_templates on a directory tree vs Ructe.build given the observed read_dir order',
         rule='random trees to depth 4 with identifier stems / directory names, mixed suffixes, same stem under different suffixes, non-template files, empty directories, broken templates among valid ones; oracle: exactly the expected files, each the code generated for that template alone, declaration chains present, broken templates warned and undeclared; non-trivial = distinct run outputs',
         assumptions=['file and directory names are UTF-8', 'that the declared functions are callable at every depth is rustc\'s name resolution (e2e)'],
@@ -214,13 +223,15 @@ PLANS = {
     ),
     'C12': dict(
         module='RucteProps.C12',
+        extra_modules=['RucteProps.C12Conflicts'],
         theorems=['Ructe.C12.applyWrite_post', 'Ructe.C12.incremental_eq_clean', 'Ructe.C12.second_run_silent', 'Ructe.C12.untouched_elsewhere', 'Ructe.C12.runLog_get',
-                  'Ructe.C12.history_then_run_eq_clean', 'Ructe.C12.crashedAt_complete', 'Ructe.C12.rerun_repairs_truncation'],
+                  'Ructe.C12.history_then_run_eq_clean', 'Ructe.C12.crashedAt_complete', 'Ructe.C12.rerun_repairs_truncation',
+                  'Ructe.C12.second_run_writes_only_conflicts', 'Ructe.C12.foldl_applyWrite_only_conflicts'],
         runs=[dict(suite='script', mix='history', n=dict(quick=120, thorough=1200), projection='script+files+writes', tags=['C12'])],
         correspondence='OUT_DIR contents after a run and the set of physically rewritten files (mtime) vs Ructe.build / writeIfChanged on the observed prior OUT_DIR state',
         rule='edit histories (add / modify / delete / break templates, sub-directories, statics) of 1..4 edits with a run after each, output files replaced by garbage / non-UTF-8 / truncated at 0, mid, len-1 bytes; every run compared with a clean build into an empty directory; a directly repeated run must rewrite nothing; non-trivial = distinct run outputs',
         assumptions=['an output path is a file or absent', 'read_dir yields the same order for an unchanged directory'],
-        level_text='Proved for every prior OUT_DIR state (any earlier builds, truncations, garbage): applyWrite_post, runLog_get, incremental_eq_clean, untouched_elsewhere, stdout_independent, second_run_silent, silent_when_up_to_date, writes_subset; the quantifier of the property is also constructed explicitly (crashedAt: a build that died at request k with the file cut at any length; afterHistory: any sequence of earlier builds over other inputs, each possibly dying) with history_then_run_eq_clean and rerun_repairs_truncation as corollaries. Tie on contents and physical writes (mtime); oracle: byte-identical to a clean build, repeated run writes nothing.',
+        level_text='Proved for every prior OUT_DIR state (any earlier builds, truncations, garbage): applyWrite_post, runLog_get, incremental_eq_clean, untouched_elsewhere, stdout_independent, second_run_silent, silent_when_up_to_date, writes_subset; the quantifier of the property is also constructed explicitly (crashedAt: a build that died at request k with the file cut at any length; afterHistory: any sequence of earlier builds over other inputs, each possibly dying) with history_then_run_eq_clean and rerun_repairs_truncation as corollaries. second_run_writes_only_conflicts removes the Consistent hypothesis of second_run_silent: a repeated run physically writes ONLY paths for which the run itself contains two requests with different contents (two template directories holding a template of the same name - a configuration whose generated code does not compile anyway); every other path is left untouched, whatever OUT_DIR held before. Tie on contents and physical writes (mtime); oracle: byte-identical to a clean build, repeated run writes nothing.',
         level_note='Trusted: Lean kernel; hand-written model; a crash during the run under test is outside the model (the theorem quantifies over what earlier crashes left).',
         design_ref='DESIGN.md §6 C12',
     ),
@@ -269,7 +280,9 @@ PLANS = {
         extra_modules=['RucteProps.C09Hist'],
         theorems=['Ructe.C09.btree_insert_sorted', 'Ructe.C09.btree_keys', 'Ructe.C09.btree_perm', 'Ructe.C09.get_exact', 'Ructe.C09.get_sound', 'Ructe.C09.get_complete', 'Ructe.C09.staticsLine_lists', 'Ructe.C09.statics_complete', 'Ructe.C09.statics_sorted_nodup', 'Ructe.C09.statics_order_independent', 'Ructe.C09.get_finds_exactly_added'],
         runs=[dict(suite='script', mix='statics', n=dict(quick=200, thorough=1500), projection='script+files+names', tags=['C09'], statics_oracle=True),
-              dict(suite='script', mix='statics', n=dict(quick=40, thorough=400), projection='script+names', tags=['C09'], args=['--keep'], statics_e2e=dict(quick=24, thorough=200))],
+              dict(suite='script', mix='statics', n=dict(quick=40, thorough=400), projection='script+names', tags=['C09'], args=['--keep'], statics_e2e=dict(quick=24, thorough=200)),
+              # STATICS after a build that also compiled stylesheets, some of which failed (oracle added-but-not-in-STATICS)
+              dict(suite='sass', features=['sass'], n=dict(quick=80, thorough=1500), projection='identity', tags=['C09'])],
         correspondence='the STATICS line and names of statics.rs vs the model',
         rule='as C07 with name sets straddling - . _ digits upper/lower case and common prefixes, shuffled insertion orders (twins); oracle: STATICS lists each published name once in ascending byte order; non-trivial = items checked',
         assumptions=['Rust Ord for str and BTreeMap<String,_> are byte-lexicographic; binary_search_by_key finds an element iff present in a sorted slice'],
@@ -282,7 +295,9 @@ PLANS = {
         extra_modules=['RucteProps.C09Hist'],
         theorems=['Ructe.C16.mangle_ascii', 'Ructe.C16.mangle_is_ident', 'Ructe.C16.mangle_not_keyword', 'Ructe.C16.getNames_maps', 'Ructe.C16.getNames_keeps', 'Ructe.C09.getNames_maps_all'],
         runs=[dict(suite='script', mix='statics', n=dict(quick=200, thorough=1500), projection='script+names', tags=['C16'], statics_oracle=True),
-              dict(suite='script', mix='statics', n=dict(quick=40, thorough=400), projection='script+names', tags=['C16'], args=['--keep'], statics_e2e=dict(quick=24, thorough=200))],
+              dict(suite='script', mix='statics', n=dict(quick=40, thorough=400), projection='script+names', tags=['C16'], args=['--keep'], statics_e2e=dict(quick=24, thorough=200)),
+              # get_names() across add_sass_file calls, succeeding and failing ones (oracle names-lost)
+              dict(suite='sass', features=['sass'], n=dict(quick=80, thorough=1500), projection='identity', tags=['C16'])],
         correspondence='identifiers (keys of get_names(), item names) vs Ructe.mangle',
         rule='as C07; oracle: identifier = every non-alphanumeric char replaced by _, n before a leading digit, legal Rust identifier; non-trivial = items checked',
         assumptions=['char::is_alphanumeric on non-ASCII scalars is a parameter of the model'],
@@ -333,7 +348,8 @@ PLANS = {
         module='RucteProps.C04',
         theorems=['Ructe.C04.render_call', 'Ructe.C04.block_captures_caller', 'Ructe.C04.render_content_param', 'Ructe.C04.compose_chain', 'Ructe.C04.lower_block'],
         runs=[dict(suite='e2e', n=dict(quick=800, thorough=12000), projection='identity', tags=['C04'], args=['--layout']),
-              dict(suite='parse', mix='structured,examples', n=dict(quick=1500, thorough=25000), projection='body', tags=['C04'])],
+              dict(suite='parse', mix='structured,examples', n=dict(quick=1500, thorough=25000), projection='body', tags=['C04']),
+              dict(suite='script', mix='history', n=dict(quick=50, thorough=500), projection='script+files', tags=['C04'])],
         correspondence='as C03, on programs with calls and Content blocks across modules (templates printed with random layouts)',
         rule='typed template programs: 1..5 templates per program in up to 3 module levels, acyclic calls with 0..3 Content blocks (empty / comment-only / nested directives and calls), if / else-if chains / if-let / for over slices, tuples (& patterns), struct destructuring, ranges, enumerate / match with 2..3 arms, every relational operator, negation, &&, ||; 3 argument sets per program; every rendering re-run under fault sinks (failure at every byte offset for renderings up to 48 bytes, sampled beyond; chunk sizes 1 / 3 / 7 / unlimited; Interrupted every 2nd / 5th call); non-trivial = distinct renderings',
         assumptions=['user fragments are pure and infallible', 'module name resolution is rustc\'s (the generated crate compiles or the check reports it)'],
@@ -457,7 +473,7 @@ def parse_entries(s, i=0):
     out = []
     while i < len(s):
         c = s[i]
-        if c == 'f':
+        if c in 'fl':        # l = symbolic link (kind 'l': skipped by the static calls, a file for compile_templates)
             j = i + 1
             while j < len(s) and (s[j].isalnum() or s[j] == '-'):
                 j += 1
@@ -465,7 +481,7 @@ def parse_entries(s, i=0):
             k = j + 1
             while k < len(s) and (s[k].isalnum() or s[k] == '-'):
                 k += 1
-            out.append(('f', name, unhex(s[j + 1:k])))
+            out.append((c, name, unhex(s[j + 1:k])))
             i = k
         elif c == 'd':
             j = i + 1
@@ -540,7 +556,7 @@ def expected_statics(req):
                 ne = name_and_ext(name)
                 adds.append(dict(path=pjoin(d, name), ident=py_mangle(to2), url=to2, data=None, content=None, hashed=False,
                                  ext=ne[1] if ne else b''))
-            else:
+            elif kind == 'd':
                 walk_as(pjoin(d, name), to2, sub)
 
     for op in ops:
@@ -565,6 +581,37 @@ def expected_statics(req):
             entries, _ = parse_entries(':'.join(t[3:]))
             walk_as(path_for(unhex(t[1])), unhex(t[2]), entries)
     return adds
+
+
+def known_contents(req):
+    """path -> bytes for every file (and symbolic link: the bytes it resolves to) the request's input tree shows"""
+    f = req.split(' ')
+    ops = [] if f[6] == '-' else f[6].split(';')
+    base = unhex(f[7]) if len(f) > 7 else b''
+    known = {}
+
+    def pjoin(b, p):
+        if p.startswith(b'/'):
+            return p
+        return b + p if (b == b'' or b.endswith(b'/')) else b + b'/' + p
+
+    def walk(d, entries):
+        for kind, name, sub in entries:
+            if kind in ('f', 'l'):
+                known[pjoin(d, name)] = sub
+            else:
+                walk(pjoin(d, name), sub)
+    for op in ops:
+        t = op.split(':')
+        if t[-1] == '!':
+            continue
+        if t[0] == 'F':
+            known[pjoin(base, unhex(t[1]))] = unhex(t[2])
+        elif t[0] in ('D', 'T'):
+            walk(pjoin(base, unhex(t[1])) if t[0] == 'D' else unhex(t[1]), parse_entries(':'.join(t[2:]))[0])
+        elif t[0] == 'S':
+            walk(pjoin(base, unhex(t[1])), parse_entries(':'.join(t[3:]))[0])
+    return known
 
 
 ITEM_RE = re.compile(r'\n/// From (.*)\n#\[allow\(non_upper_case_globals\)\]\npub static (\S+): StaticFile = StaticFile \{\n\s*content: (.*),\n\s*name: (.*),\n(?:\s*mime: &(.*),\n)?\};\n')
@@ -627,6 +674,18 @@ def statics_oracle(res, ctx):
                 lit_items.append((i, req, ['C08'], 'content-path', inner, a['path'] if a['data'] is None else b'<data expected>', a))
             else:
                 fail(['C08'], 'content-form', f'unrecognised content expression {content[:80]!r}')
+        # --- C07, item by item and independent of the expectation above: whatever file an item embeds, a hashed
+        # name carries the hash of the COMPLETE bytes at that path (also for files the expectation does not list)
+        known = known_contents(req)
+        for (frm, ident, content, namelit, mime) in items:
+            if not content.startswith('include_bytes!(') or '\\' in frm or '\\' in namelit:
+                continue
+            path = frm.strip('"').encode()
+            name = namelit.strip('"').encode()
+            hm = re.fullmatch(rb'(.*)-([A-Za-z0-9_-]{8})\.([^./]*)', name, re.S)
+            if path in known and hm and hm.group(1) + b'.' + hm.group(3) == path.rsplit(b'/', 1)[-1]:
+                if hm.group(2) != py_slug(known[path]):
+                    fail(['C07'], 'hash-not-of-content', f'{path!r} ({len(known[path])} bytes) is published as {name!r}; the hash of its complete content is {py_slug(known[path])!r}')
         # --- C09: STATICS lists each published name exactly once, ascending by name
         m = STATICS_RE.search(text)
         if not m:
